@@ -53,7 +53,7 @@ class World:
         # a header that uses __TIMESTAMP__ is a different input whenever it has been rewritten (its modification time is part of the text)
         stamp = os.stat(os.path.join(self.w, 'h1.h')).st_mtime_ns if '__TIMESTAMP__' in self.files['h1.h'] else None
         return json.dumps([stamp, os.path.basename(self.cur), self.flags, self.lang, self.files['main.c'], self.files['h1.h'], self.files['inc2/h2.h'] if inc2 else self.files['inc1/h2.h'],
-                           self.env.get('SCCACHE_C_CUSTOM_CACHE_BUSTER'), self.out if '-gsplit-dwarf' in self.flags else None])
+                           self.env.get('SCCACHE_C_CUSTOM_CACHE_BUSTER'), self.out if '-gsplit-dwarf' in self.flags else None] + ([self.files[k] for k in sorted(self.files) if k.endswith('.rsp')] if any(k.endswith('.rsp') for k in self.files) else []))
     def request(self, note, expect_cacheable=True, evicted=False):
         argv = self.argv(); out = os.path.join(self.w, self.out)
         env = dict(self.env)
@@ -71,7 +71,11 @@ class World:
             else:
                 try: os.remove(p_)
                 except OSError: pass
-        r = self.sc.compile(argv, self.w, env=env)
+        try: r = self.sc.compile(argv, self.w, env=env, timeout=getattr(self, 'req_timeout', 120))
+        except subprocess.TimeoutExpired:
+            self.trace.append(f'{note}: {" ".join(argv[1:])} -> no answer')
+            self.fails.append({'kind': 'request_hangs', 'detail': f'[{note}] got no answer within {getattr(self, "req_timeout", 120)} s (the direct compile ends at once)', 'ops': list(self.trace)})
+            self.sc.kill(); self.sc.start(); return 'hung'
         got = (r.returncode, r.stdout, r.stderr, file_state(out), file_state(dwo) and file_state(dwo)[0])
         ran = loglines(self.log) - nlog
         after = counts(self.sc.stats() or {})
@@ -296,16 +300,19 @@ def run_readonly(root, tag, compiler, seed, n_hist, n_req, oversize=False, damag
 
 # ------------------------------------------------------------------------------------------------ compiler swaps (C12)
 def run_swap_histories(root, tag, seed, n_hist, n_req):
-    """the file at the compiler path is swapped among wrapper compilers (each injects a different -DWRAP=k) without
-    restarting the server; every request must equal a direct run of the wrapper then at the path"""
+    """the file at the compiler path is swapped among wrapper compilers without restarting the server; every request must equal a
+    direct run of the wrapper then at the path.  The wrappers differ in what they add behind sccache's back: in even histories a
+    macro (-DWRAP=k: the preprocessed text differs, too), in odd ones only the optimisation level (-O0/-O1/-O2: same preprocessed
+    text, so the compiler's digest is the only component of the key that tells them apart)"""
     rng = random.Random(seed); fails = []; reqs = swaps = hits = 0; samples = []
     for h in range(n_hist):
         d = os.path.join(root, f'sw{h}'); shutil.rmtree(d, ignore_errors=True); w = os.path.join(d, 'w'); os.makedirs(w); os.makedirs(os.path.join(d, 'bin')); os.makedirs(os.path.join(d, 'variants'))
-        open(os.path.join(w, 'main.c'), 'w').write('int f(void) { return WRAP; }\n')
+        by_opt = (h % 4 >= 2)
+        open(os.path.join(w, 'main.c'), 'w').write('int f(int n) { int s = 0; for (int i = 0; i < n; i++) s += i * 3; return s; }\n' if by_opt else 'int f(void) { return WRAP; }\n')
         cc = os.path.join(d, 'bin', 'gcc'); use_symlink = (h % 2 == 1)
         for k in range(3):
             v = os.path.join(d, 'variants', f'gcc{k}')
-            open(v, 'w').write(f'#!/bin/sh\n# variant {k}\nexec /usr/bin/gcc -DWRAP={k} "$@"\n'); os.chmod(v, 0o755)
+            open(v, 'w').write(f'#!/bin/sh\n# variant {k}\nexec /usr/bin/gcc ' + (f'-O{k}' if by_opt else f'-DWRAP={k}') + ' "$@"\n'); os.chmod(v, 0o755)
             os.utime(v, (1_600_000_000 + k * 10, 1_600_000_000 + k * 10))
         tick = [100]
         def install(k):
@@ -339,6 +346,62 @@ def run_swap_histories(root, tag, seed, n_hist, n_req):
         finally:
             sc.stop(); shutil.rmtree(d, ignore_errors=True)
     return {'requests': reqs, 'swaps': swaps, 'hits': hits, 'fails': fails, 'samples': samples}
+
+def run_swap_during_detection(root, tag, size_gb=1.5):
+    """the binary at the compiler path is replaced *while* the server is reading (hashing) the previous one: whatever the server
+    remembers about the path afterwards must not be the old binary's identity under the new binary's modification time.
+    Wrapper A (-O0) is padded with a sparse tail so that hashing it takes about a second; wrapper B (-O2) is renamed over the path
+    as soon as /proc/<server>/fd shows A open.  The request in flight during the swap is not compared (its own outcome is a race
+    of the build, not of the memo); the requests after it must equal direct runs of B."""
+    import threading
+    d = os.path.join(root, 'swdet'); shutil.rmtree(d, ignore_errors=True); w = os.path.join(d, 'w'); os.makedirs(w); os.makedirs(os.path.join(d, 'bin'))
+    open(os.path.join(w, 'main.c'), 'w').write('int f(int n) { int s = 0; for (int i = 0; i < n; i++) s += i * 3; return s; }\n')
+    cc = os.path.join(d, 'bin', 'gcc'); fails = []; trace = []; reqs = 0; exercised = False
+    def variant(name, opt, pad):
+        p_ = os.path.join(d, name)
+        with open(p_, 'w') as f: f.write(f'#!/bin/sh\nexec /usr/bin/gcc -O{opt} "$@"\nexit 1\n')
+        if pad:
+            with open(p_, 'r+b') as f: f.truncate(int(pad * (1 << 30)))
+        os.chmod(p_, 0o755); return p_
+    a = variant('gccA', 0, size_gb); b = variant('gccB', 2, 0)
+    def install(src, t):
+        tmp = cc + '.new'
+        if os.path.lexists(tmp): os.remove(tmp)
+        if src == a: os.link(src, tmp)          # the padded file is not copied
+        else: shutil.copy(src, tmp); os.chmod(tmp, 0o755)
+        os.utime(tmp, (t, t)); os.rename(tmp, cc)
+    sc = Sc(os.path.join(d, 'sc'), tag); sc.start()
+    def request(note, compare=True):
+        nonlocal reqs
+        out = os.path.join(w, 'out.o')
+        if os.path.exists(out): os.remove(out)
+        r = sc.compile([cc, '-c', 'main.c', '-o', 'out.o'], w, timeout=300); got = (r.returncode, file_state(out) and file_state(out)[0]); reqs += 1
+        if os.path.exists(out): os.remove(out)
+        if not compare: trace.append(f'{note} -> rc={got[0]} (not compared)'); return
+        dr = subprocess.run([cc, '-c', 'main.c', '-o', 'out.o'], cwd=w, capture_output=True); want = (dr.returncode, file_state(out) and file_state(out)[0])
+        trace.append(f'{note} -> rc={got[0]} object {got[1] and got[1][:8]} (direct: {want[1] and want[1][:8]})')
+        if got != want: fails.append({'kind': 'stale_compiler_result', 'detail': f'[{note}]: result differs from a direct run of the compiler now at the path (the server kept the identity of the binary it was hashing when the path was replaced)', 'ops': list(trace)})
+    try:
+        install(a, 1_600_000_000); request('wrapper A (-O0, padded) at the path: first request')
+        install(a, 1_600_000_100); trace.append('wrapper A reinstalled with a new modification time')
+        pids = sc.server_pids(); th = threading.Thread(target=request, args=('request while A is being identified again; wrapper B (-O2) renamed over the path as soon as the server has A open', False)); th.start()
+        end = time.time() + 60; ino = os.stat(a).st_ino
+        while time.time() < end and th.is_alive() and not exercised:
+            for p_ in pids:
+                try:
+                    for fd in os.listdir(f'/proc/{p_}/fd'):
+                        try:
+                            if os.stat(f'/proc/{p_}/fd/{fd}').st_ino == ino: exercised = True; break
+                        except OSError: pass
+                except OSError: pass
+            if not exercised: time.sleep(0.002)
+        if exercised: install(b, 1_600_000_200); trace.append('wrapper B installed (rename over the path) while the server was reading A')
+        th.join()
+        if exercised:
+            for i in range(3): request(f'wrapper B at the path: request {i + 1} after the swap')
+    finally:
+        sc.stop(); shutil.rmtree(d, ignore_errors=True)
+    return {'requests': reqs, 'swap_landed_during_detection': exercised, 'fails': fails, 'samples': [' ; '.join(trace)[:700]]}
 
 # ------------------------------------------------------------------------------------------------ direct mode under every option combination (C04)
 DM_SRC = '#include "h1.h"\n#include <h2.h>\n#include <sys.h>\nint f(int x) { return x * A + B + S + %d; }\n'
@@ -502,3 +565,35 @@ def run_corpus(root, tag, compiler, direct_mode=True):
         finally:
             w.sc.stop(); shutil.rmtree(w.root, ignore_errors=True)
     return {'requests': reqs, 'corpus_histories': len(CORPUS), 'fails': fails, 'samples': samples[:1]}
+
+
+# ------------------------------------------------------------------------------------------------ response files
+RSP_SRC = 'int f(int x) { return x + K; }\n'
+def run_rsp(root, tag, compiler):
+    """flags delivered through response files (@file): every request is compared with the direct compile as usual.  Scenarios: plain
+    (cacheable: repeat must hit, an edit of the file must not be answered from the old entry), nested, and the texts whose meaning for the
+    compiler differs from plain white-space splitting — backslash escapes, quotes, NUL, non-ASCII white space — and a file that includes itself."""
+    fails = []; reqs = 0; samples = []
+    def world(name):
+        w = World(os.path.join(root, 'rsp_' + name), f'{tag}rsp{name}', compiler, random.Random(0)); w.write('main.c', RSP_SRC); w.flags = ['-O0', '@flags.rsp']; w.req_timeout = 25; w.sc.start(); return w
+    scen = [
+        ('plain', [('-DK=5\n', True), ('-DK=5\n', True), ('-DK=6\n', True), ('  -DK=5 \t-DU=1\n', True), ('-DK=5\n', True)]),
+        ('nested', [('@more.rsp -DK=2\n', True), ('@more.rsp -DK=2\n', True), ('@more.rsp -DK=3\n', True)]),
+        ('backslash', [('-DK=\\7\n', False), ('-DK=\\7\n', False), ('-DK=7\\\n-DU=1\n', False)]),
+        ('quotes', [("'-DK=1 + 2'\n", False), ('"-DK=4"\n', False)]),
+        ('unicode_space', [('-DK=1\u2003-DM=2\n', False), ('-DK=1\u00a0\n', False), ('-DK=1\u00a0\n', False)]),
+        ('nul', [('-DK=1\0-DK=2\n', False)]),
+        ('self_including', [('@flags.rsp\n', False), ('@more.rsp\n', False)]),      # cycles without words: on a tree without the bound the server spins but does not grow
+    ]
+    for name, steps in scen:
+        w = world(name)
+        try:
+            w.write('more.rsp', '@flags.rsp\n' if name == 'self_including' else '-DM=1\n')
+            for i, (text, cacheable) in enumerate(steps):
+                w.write('flags.rsp', text)
+                w.request(f'response file {name} #{i}: flags.rsp = {text!r}', expect_cacheable=cacheable); reqs += 1
+            fails += [dict(f, detail=f'response-file scenario {name}: ' + f['detail']) for f in w.fails if f['kind'] not in KNOWN_DEVIATIONS][:2]
+            samples.append(' ; '.join(w.trace[:2]))
+        finally:
+            w.sc.stop(); shutil.rmtree(w.root, ignore_errors=True)
+    return {'requests': reqs, 'rsp_scenarios': len(scen), 'fails': fails, 'samples': samples[:1]}
